@@ -6,9 +6,10 @@
 ID="$1"; shift
 CHECKS="${*:-$ID}"
 HERE="$(cd "$(dirname "$0")/.." && pwd)"
-SRC="/tmp/seed_$ID/seed"
+SRC="${SEED_SRC:-/tmp/seed_$ID/seed}"
+NAME="${SEED_NAME:-$ID}"
 [ -f "$SRC/patch.diff" ] || { echo "no patch in $SRC"; exit 2; }
-DST="$HERE/seeded/$ID"
+DST="$HERE/seeded/$NAME"
 mkdir -p "$DST"
 cp "$SRC/patch.diff" "$SRC/demo.py" "$DST/"
 [ -f "$SRC/NOTES.txt" ] && cp "$SRC/NOTES.txt" "$DST/"
@@ -22,7 +23,7 @@ git apply "$DST/patch.diff" || { echo "patch does not apply"; exit 2; }
 FILES=$(git diff --name-only | tr '\n' ' ')
 PYTHONPATH="$W" /venv/bin/python "$DST/demo.py" > "$W/demo1.log" 2>&1; D1=$?
 T=$(PYTHONPATH="$W" /venv/bin/python -m pytest -q -p no:cacheprovider --timeout=900 2>&1 | tail -1)
-echo "$ID: demo without change exit=$D0, with change exit=$D1; tests with change: $T; files: $FILES"
+echo "$NAME: demo without change exit=$D0, with change exit=$D1; tests with change: $T; files: $FILES"
 cd "$HERE"
 RES=""
 for C in $CHECKS; do
@@ -30,18 +31,18 @@ for C in $CHECKS; do
     echo "   $L"
     RES="$RES$L\n"
 done
-/venv/bin/python - "$ID" "$D0" "$D1" "$T" "$FILES" "$RES" <<'PY'
+/venv/bin/python - "$ID" "$D0" "$D1" "$T" "$FILES" "$RES" "$NAME" <<'PY'
 import json, sys, os
-ID, d0, d1, t, files, res = sys.argv[1:7]
+ID, d0, d1, t, files, res, NAME = sys.argv[1:8]
 here = os.path.join(os.path.dirname(os.path.abspath('.')), '')
 meta = {
     'breaks_property': ID,
     'origin': 'independent sub-agent given only the property text and a scratch worktree',
-    'needs_to_manifest': open('seeded/%s/NOTES.txt' % ID).read()[:3000] if os.path.exists('seeded/%s/NOTES.txt' % ID) else '',
+    'needs_to_manifest': open('seeded/%s/NOTES.txt' % NAME).read()[:3000] if os.path.exists('seeded/%s/NOTES.txt' % NAME) else '',
     'verified': {'demo_exit_without_change': int(d0), 'demo_exit_with_change': int(d1), 'repository_tests_with_change': t,
                  'files_touched': files.split()},
     'checks_run': [l for l in res.split('\\n') if l.strip()],
     'what_was_run': 'tools/seeded_verify.sh %s (fresh worktree of /repo HEAD; demo.py before/after git apply; full pytest with the change; tools/mutant.sh patch.diff <checks>)' % ID,
 }
-json.dump(meta, open('seeded/%s/meta.json' % ID, 'w'), indent=1)
+json.dump(meta, open('seeded/%s/meta.json' % NAME, 'w'), indent=1)
 PY
